@@ -110,9 +110,34 @@ def one_load(task):
                 ev["rel"][k] = "same" if (got is None or np.size(got) == 0) else "spurious"
             else:
                 ev["rel"][k] = _relate(want, got, e)
+        if "_atom" in exp:
+            ev["atom"] = atom_places(exp["_atom"], obj)
         return ev
     finally:
         shutil.rmtree(tmp, ignore_errors=True)
+
+
+def atom_places(a, obj):
+    """Where the tagged expansion coefficients of an atomic-orbital file ended up in the loaded coefficient matrix
+    (judged by TLC against spec/AtomOrbitals.tla)."""
+    mo = getattr(obj, "mo", None)
+    c = None if mo is None else np.asarray(mo.coeffs)
+    out = {"nfun": a["nfun"], "recs": a["recs"], "nspin": 2 if a["unres"] else 1, "norb": a["norb"], "places": [],
+           "nbasis": -1 if c is None else int(c.shape[0]), "nonzero": -1 if c is None else int(np.count_nonzero(c))}
+    seen = set()
+    for p in a["places"]:
+        key = (p["spin"], p["r"], p["ic"])
+        if key in seen:
+            continue
+        seen.add(key)
+        cells = []
+        if c is not None and c.ndim == 2:
+            c0 = a["norb"] if p["spin"] == "beta" else 0
+            blk = c[:, c0:c0 + a["norb"]]
+            rows, cols = np.nonzero(np.abs(blk - p["value"]) <= 1e-13 * abs(p["value"]))
+            cells = sorted([int(i), int(j)] for i, j in zip(rows, cols))
+        out["places"].append({"l": p["l"], "r": p["r"], "ic": p["ic"], "cells": cells})
+    return out
 
 
 def plan(run, rng, tables):
@@ -141,6 +166,8 @@ def describe(e):
         msg = re.sub(r"[-\d.]{4,}", "#", e['load'].split(':', 1)[1][:60])
         return (f"{e['fmt']} independently rendered file not loaded: {e['load'].split(':')[0]}:{msg} variant={e['variant']}", json.dumps(e))
     bad = sorted(f"{k}:{v}" for k, v in e["rel"].items() if v != "same")
+    if not bad and "atom" in e:
+        bad = ["orbital coefficients not on the cells of AtomOrbitals"]
     return (f"{e['fmt']} loaded value differs from the file: {' '.join(bad)} variant={e['variant']}", json.dumps(e))
 
 
@@ -154,12 +181,15 @@ def size_class(n):
 def check(run: Run):
     rng = random.Random(run.seed)
     run.cov["rule"] = (
-        "files = rendered by the independent writer for 15 readable formats (xyz, extxyz, sdf, pdb, gro, crd, mol2, poscar, "
-        "chgcar, locpot, cube, fcidump, gaussian input, qcschema json, fchk, gaussian log, orca output, gamess punch, q-chem output) x sizes crossing field-width boundaries "
+        "files = rendered by the independent writer for the readable formats (xyz, extxyz, sdf, pdb, gro, crd, mol2, poscar, "
+        "chgcar, locpot, cube, fcidump, gaussian input, qcschema json, fchk, gaussian log, orca output, gamess punch, q-chem output, wfx, mwfn, cp2k atom output) x sizes crossing field-width boundaries "
         "(>=100 atoms/bonds in SDF, serials >= 10000 in PDB CONECT, >= 1000 atoms) x magnitude classes (x <= -10 nm, "
         ">= 100 nm, wide negative numbers filling their columns) x layout variants (direct/cartesian/scaled/selective "
         "POSCAR, ragged cube lines, triclinic GRO box); distinct by (format, size, magnitude, variant)")
     tables = load_tables(run)
+    # the placement rule of atomic orbitals (cp2klog) is a placement: every basis shape x record sequence within the bounds
+    cfga = "MC_AtomOrbitals_thorough.cfg" if run.thorough() else "MC_AtomOrbitals.cfg"
+    run.add_model(run_tlc(run, "MC_AtomOrbitals", cfga, workers=8, timeout=600, tag=cfga[:-4]))
     tasks = plan(run, rng, tables)
     events = [e for e in pmap(one_load, tasks, chunksize=2)]
     skipped = [e for e in events if e["load"].startswith("skip:")]
@@ -187,9 +217,9 @@ def check(run: Run):
     run.notes["qcschema_documents"] = len(qev)
     run.notes["formats"] = sorted(WRITERS)
     run.notes["models_not_fitting_columns"] = len(skipped)
-    run.notes["not_covered"] = ("cp2klog has no rendered counterpart (its sections are rendered for gaussianlog, orcalog, gamess punch and "
-                                "qchemlog in the shape the programs print them, transcribed from sample outputs, not from a published "
-                                "specification); molden/molekel are rendered independently in C05, wfn/wfx/mwfn only through C01/C02")
+    run.notes["not_covered"] = ("the sections of gaussianlog, orcalog, gamess punch, qchemlog and cp2klog are rendered in the shape the programs "
+                                "print them, transcribed from sample outputs, not from a published specification; molden/molekel are "
+                                "rendered independently in C05, wfn/wfx/mwfn only through C01/C02")
     for f in ("sdf", "pdb", "gromacs"):
         run.sample(next(e for e in events if e["fmt"] == f))
     run.assumptions += ["tolerance: half a unit in the last digit written plus 2e-7 relative (single-precision readers)",
